@@ -209,6 +209,27 @@ def r14_2_index_kinds(ctx, rule: str = 'R14.2', rule_enum: str = 'R06.1', rule_s
                                         f.loc(), construct=_fn(f)))
             continue
         fn = _fn(f)
+        # the selection keeps the caller's order: `idx` is only ever re-bound to an order-preserving copy of itself.  A
+        # sorting / de-duplicating normalisation (np.unique, sorted, set) changes which train comes first in a pair and
+        # where a train's row sits in a matrix - for an antisymmetric measure that flips signs
+        for n in ast.walk(f.node):
+            if isinstance(n, ast.Assign) and len(n.targets) == 1 and isinstance(n.targets[0], ast.Name) and n.targets[0].id == sc.idx \
+                    and isinstance(n.value, ast.Call) and n.value.args and any(
+                        isinstance(x, ast.Name) and x.id == sc.idx for x in ast.walk(n.value)):
+                fnm = ast.unparse(n.value.func)
+                t = (f"{f.name}: the selection `{sc.idx}` is used in the order given by the caller (it is only copied, never sorted or "
+                     f"de-duplicated)")
+                if fnm in ('np.array', 'np.asarray', 'list', 'tuple', 'np.asanyarray', 'np.copy', 'np.atleast_1d'):
+                    obs.append(ok(rule, t, f.loc(n), construct=f"{fn}::selection-order"))
+                elif fnm in ('np.unique', 'sorted', 'np.sort', 'set', 'frozenset', 'np.flip', 'reversed'):
+                    sens = _order_sensitive(ctx, wm, f)
+                    det = (f"`{ast.unparse(n)}` re-orders the selection"
+                           + ('; this function feeds an order-sensitive (antisymmetric) measure, so a non-ascending selection flips signs'
+                              if sens else '; results for the selected trains no longer correspond to the positions the caller named'))
+                    obs.append(violation(rule, t, f.loc(n), key=f"{fn}::selection-reordered::{fnm}", detail=det))
+                else:
+                    obs.append(inconclusive(rule, t, f.loc(n), f"`{ast.unparse(n)[:80]}`: unknown normalisation of the selection",
+                                            construct=f"{fn}::selection-order"))
         # containers with a len(idx) extent
         for n in ast.walk(f.node):
             if isinstance(n, ast.Assign) and len(n.targets) == 1 and isinstance(n.targets[0], ast.Name):
